@@ -246,6 +246,9 @@ func (st *e1State) step(o model.Op, hist *[]string) *Violation {
 	if res.Note != "" && res.Note != "unsupported" {
 		return e1Violation(st.f.prop, st.c, "direct", "callback-note", fmt.Sprintf("%s: %s", o.String(), res.Note), *hist)
 	}
+	if o.K == model.CSetCallback && res.OK != o.On {
+		return e1Violation(st.f.prop, st.c, "sequential", "seq:EvictedCallback-getter", fmt.Sprintf("after %s the getter EvictedCallback() reports installed=%v", o.String(), res.OK), *hist)
+	}
 	if err := m.Step(&o, &res); err != nil {
 		return e1Violation(st.f.prop, st.c, "sequential", "seq:"+o.K.String(), fmt.Sprintf("step %d %s -> %s: %v", len(st.c.Ops)-1, o.String(), res.String(), err), *hist)
 	}
